@@ -19,7 +19,7 @@ import ast
 from ..cfg import CFG, stmt_defs, node_expr
 from ..exctypes import ExcTypes
 from ..facts import conjuncts, must_facts
-from ..model import Program, call_name, norm, dict_store_keys
+from ..model import Program, call_name, norm, dict_store_keys, execution_condition, bool_equivalent
 from ..poly import Rat, eval_expr
 from ..report import AnalysisError
 
@@ -406,19 +406,14 @@ def rule_r3(rep, program: Program):
         r.inst({"offset": "update", "stmt": norm(u), "increment": repr(inc)})
         if inc is None or not inc.equals(Rat.sym("stage.n_iter")):
             r.violate(PROP, f"sample_chains:offset-update:{norm(u)}", f"`{norm(u)}` does not accumulate the stage length (increment {inc!r} instead of stage.n_iter): rows of a later recorded stage land at the wrong offset", node=u, file=sc.file)
-        # condition
-        cond = None
-        for n in ast.walk(sc.node):
-            if isinstance(n, ast.If) and any(x is u for x in n.body):
-                cond = n.test
-        atoms = set()
-        if cond is not None:
-            vals = cond.values if isinstance(cond, ast.BoolOp) and isinstance(cond.op, ast.Or) else [cond]
-            atoms = {norm(v) for v in vals}
-        allowed = {"stage.trace_funcs is not None", "stage.record_stats"}
-        r.inst({"offset": "condition", "atoms": sorted(atoms)})
-        if not atoms or not atoms <= allowed:
-            r.violate(PROP, f"sample_chains:offset-condition:{sorted(atoms)}", "the row offset must advance exactly when the stage records (stage.trace_funcs is not None or stage.record_stats)", node=u, file=sc.file)
+        # condition: the update executes exactly when the stage records something (an enclosing `if`,
+        # or an earlier guard clause that `continue`s, possibly written with De Morgan)
+        conds = [(e, t) for e, t in execution_condition(sc.node, u) if "stage.trace_funcs" in norm(e) or "stage.record_stats" in norm(e)]
+        expected = ast.parse("stage.trace_funcs is not None or stage.record_stats", mode="eval").body
+        eq = bool_equivalent(conds, expected) if conds else False
+        r.inst({"offset": "condition", "executes when": [("" if t else "not ") + norm(e) for e, t in conds], "equivalent to recording": eq})
+        if not eq:
+            r.violate(PROP, f"sample_chains:offset-condition:{[('' if t else 'not ') + norm(e) for e, t in conds]}", "the row offset must advance exactly when the stage records (stage.trace_funcs is not None or stage.record_stats)", node=u, file=sc.file)
     # the same conditions select the arrays handed to the chains
     kwc = {}
     for n in ast.walk(sc.node):
